@@ -406,13 +406,34 @@ pub fn auto_record(seed: u64, runs: u64, target: usize, path: &str) -> Value {
     let mut r = crate::rng::Rng::new(seed);
     let (mut events, mut bytes) = (0u64, 0u64);
     for k in 0..runs {
-        let choice = ["Never", "AlwaysAnsi", "Always", "Auto"][(k % 4) as usize];
+        let mut choice = ["Never", "AlwaysAnsi", "Always", "Auto"][(k % 4) as usize];
         let flavor = if r.chance(1, 2) { Flavor::Utf8 } else { Flavor::Full };
-        let input = gen_stream(&mut r, target, flavor);
+        let mut input = gen_stream(&mut r, target, flavor);
+        // special first runs (shards whose seed is a multiple of 4): ONE write_all / write of a buffer that is
+        //  0: larger than 64 KiB and not a multiple of it, pass-through mode (size limits applied to the data)
+        //  1,2: text whose first visible run also occurs INSIDE the sequence in front of it (a hyperlink labelled with its own
+        //       URL, "ESC[31m" + "m...") - offsets must come from positions, not from searching for content
+        let special = if seed % 4 == 0 && k < 3 { Some(k) } else { None };
+        if let Some(sk) = special {
+            match sk {
+                0 => {
+                    choice = "AlwaysAnsi";
+                    input = (0..(65536 + 1 + 700usize)).map(|i| if i % 97 == 0 { b'\n' } else { b'a' + (i % 26) as u8 }).collect();
+                }
+                1 => {
+                    choice = "Never";
+                    input = b"\x1b]8;;https://example.com/x\x1b\\https://example.com/x\x1b]8;;\x1b\\ and \x1b[31mmore m\x1b[0m\n".to_vec();
+                }
+                _ => {
+                    choice = "Never";
+                    input = b"\x1b[1;31mm1;31m\x1b[0m[0m 31m\n".to_vec();
+                }
+            }
+        }
         bytes += input.len() as u64;
         let profile = r.below(3);
         let mut script = Vec::new();
-        for _ in 0..(input.len() + 8) {
+        for _ in 0..(if special.is_some() { 0 } else { input.len() + 8 }) {
             let x = r.below(100);
             script.push(if x < 70 {
                 Resp::All
@@ -431,12 +452,12 @@ pub fn auto_record(seed: u64, runs: u64, target: usize, path: &str) -> Value {
         writeln!(w, "{}", json!({"op":"new","choice":choice,"auto":"Never","reported":reported})).unwrap();
         d.first = false;
         events += 1;
-        let maxc = *r.pick(&[1usize, 2, 3, 7, 16, 64]);
+        let maxc = if special.is_some() { input.len() } else { *r.pick(&[1usize, 2, 3, 7, 16, 64]) };
         let mut pos = 0;
         let mut stalls = 0;
         let text_ok = std::str::from_utf8(&input).is_ok();
         while pos < input.len() {
-            let opk = r.below(12);
+            let opk = if special.is_some() { 5 } else { r.below(12) };
             if opk == 0 {
                 // flush is forwarded
                 let before = d.inner.borrow().flushes;
@@ -457,8 +478,11 @@ pub fn auto_record(seed: u64, runs: u64, target: usize, path: &str) -> Value {
                 }
                 continue;
             }
-            let mut c = r.range(1, maxc).min(input.len() - pos);
+            let mut c = if special.is_some() { input.len() - pos } else { r.range(1, maxc).min(input.len() - pos) };
             let mut op = ["write", "write", "write_all", "vectored", "write_fmt"][r.below(5)];
+            if let Some(sk) = special {
+                op = if sk == 0 { "write_all" } else { "write" };
+            }
             if op == "write_fmt" {
                 if !text_ok {
                     op = "write_all";
